@@ -242,11 +242,16 @@ def run(prog: Program, res: Result) -> None:
             bad("R3-same-discriminator", f.node, f"models.Task.{m}::iteration", f"Task.{m} does not iterate over self.variables")
             continue
         # branches (conditional expressions or if statements) inside the iteration that mention the loop variable
+        def _test_of(n_):
+            t_ = n_.test
+            if isinstance(t_, ast.UnaryOp) and isinstance(t_.op, ast.Not):
+                t_ = t_.operand
+            return origin(f.node, t_) if isinstance(t_, ast.Name) else t_      # a local holding the discriminator
         ifexps = [n for n in own_nodes(f) if isinstance(n, (ast.IfExp, ast.If))
-                  and any(isinstance(x, ast.Name) and x.id in loop_vars for x in ast.walk(n.test))]
+                  and any(isinstance(x, ast.Name) and x.id in loop_vars for x in ast.walk(_test_of(n)))]
         n_disc = 0
         for ie in ifexps:
-            t = ie.test
+            t = _test_of(ie)
             if isinstance(t, ast.UnaryOp) and isinstance(t.op, ast.Not):
                 t = t.operand
             okd = isinstance(t, ast.Call) and isinstance(t.func, ast.Attribute) and t.func.attr == "has_children" \
@@ -285,21 +290,32 @@ def run(prog: Program, res: Result) -> None:
         slices = [n for n in ast.walk(loop) if isinstance(n, ast.Subscript) and isinstance(n.slice, ast.Slice) and dotted(n.value) == x]
         oks = False
         counter = None
+
+        def _is_size(p_):
+            return isinstance(p_, ast.Call) and isinstance(p_.func, ast.Attribute) and p_.func.attr == "size" \
+                and isinstance(p_.func.value, ast.Name) and p_.func.value.id == v and not p_.args
+
+        def _counter_plus_size(e_, cname):
+            """`counter + v.size()` (either order), through single-assignment locals of the loop body"""
+            e_ = origin(ts.node, e_) if isinstance(e_, ast.Name) and e_.id != cname else e_
+            if isinstance(e_, ast.BinOp) and isinstance(e_.op, ast.Add):
+                ps = [origin(ts.node, q_) if isinstance(q_, ast.Name) and q_.id != cname else q_ for q_ in (e_.left, e_.right)]
+                return any(isinstance(q_, ast.Name) and q_.id == cname for q_ in ps) and any(_is_size(q_) for q_ in ps)
+            return False
         if len(slices) == 1:
             sl = slices[0].slice
-            if isinstance(sl.lower, ast.Name) and isinstance(sl.upper, ast.BinOp) and isinstance(sl.upper.op, ast.Add) and sl.step is None:
+            if isinstance(sl.lower, ast.Name) and sl.upper is not None and sl.step is None:
                 counter = sl.lower.id
-                parts = [sl.upper.left, sl.upper.right]
-                has_c = any(isinstance(p, ast.Name) and p.id == counter for p in parts)
-                has_s = any(isinstance(p, ast.Call) and isinstance(p.func, ast.Attribute) and p.func.attr == "size"
-                            and isinstance(p.func.value, ast.Name) and p.func.value.id == v for p in parts)
-                oks = has_c and has_s
+                oks = _counter_plus_size(sl.upper, counter)
+        # the counter advances by v.size() once per variable: `counter += v.size()` or `counter = <counter + v.size()>`
         incs = [n for n in loop.body if isinstance(n, ast.AugAssign) and isinstance(n.target, ast.Name) and n.target.id == counter
-                and isinstance(n.op, ast.Add) and isinstance(n.value, ast.Call) and isinstance(n.value.func, ast.Attribute)
-                and n.value.func.attr == "size" and isinstance(n.value.func.value, ast.Name) and n.value.func.value.id == v]
+                and isinstance(n.op, ast.Add) and _is_size(origin(ts.node, n.value) if isinstance(n.value, ast.Name) else n.value)]
+        incs += [n for n in loop.body if isinstance(n, ast.Assign) and len(n.targets) == 1 and isinstance(n.targets[0], ast.Name)
+                 and n.targets[0].id == counter and _counter_plus_size(n.value, counter)]
+        other_stores = [n for n in ast.walk(loop) if isinstance(n, ast.Name) and n.id == counter and isinstance(n.ctx, ast.Store)]
         init0 = [n for n in ts.node.body if isinstance(n, ast.Assign) and isinstance(n.targets[0], ast.Name) and n.targets[0].id == counter
                  and isinstance(n.value, ast.Constant) and n.value.value == 0]
-        oks = oks and len(incs) == 1 and len(init0) == 1
+        oks = oks and len(incs) == 1 and len(other_stores) == 1 and len(init0) == 1
         res.ob(oks, f"{ts.loc()} transform_solution slices x[counter:counter + v.size()] with counter += v.size()", "ts.slice")
         if not oks:
             bad("R4-transform-solution", loop, "models.Task.transform_solution::slice",
